@@ -408,3 +408,25 @@ def aspath_roundtrip(tier, seed):
 def _replay_aspath(f):
     r = aspath_roundtrip('quick', 1)
     return not any(x['input'] == f['input'] for x in r['failures'])
+
+
+@bounded('C15', 'cidr-size-table')
+def cidr_size_table(tier, seed):
+    """COMPLETE for its domain: CIDR.size is a table lookup; the contracts on CIDR.decode / pack_nlri use ceil(mask / 8)
+    for 0..128 and 0 outside: checked here against the real function for every mask in -1..1024"""
+    from exabgp.bgp.message.update.nlri.cidr import CIDR
+
+    fails = []
+    for m in range(-1, 1025):
+        want = (m + 7) // 8 if 0 <= m <= 128 else 0
+        if CIDR.size(m) != want:
+            fails.append({'what': f'CIDR.size({m}) is {CIDR.size(m)}, the contracts assume {want}', 'input': {'mask': m}})
+    return {'evaluations': 1026, 'distinct_nontrivial': 1026, 'bound': 'every mask in -1..1024 (the table has 129 entries)', 'rule': 'one case = one mask', 'samples': [{'mask': 25}], 'failures': fails[:5]}
+
+
+@replayer('C15', 'cidr-size-table')
+def _replay_size(f):
+    from exabgp.bgp.message.update.nlri.cidr import CIDR
+
+    m = f['input']['mask']
+    return CIDR.size(m) == ((m + 7) // 8 if 0 <= m <= 128 else 0)
